@@ -82,7 +82,7 @@ RetainDrop(l, ss, c, t) ==
 
 \* scanKeys: highest offset <= h among the records whose key is k.  Records
 \* without a key (nil) are not tracked, so an empty key is a key of its own
-\* (before fix c0d8204 the map was indexed by string(key) for every record and
+\* (before fix be650a5 the map was indexed by string(key) for every record and
 \* a nil key shadowed the empty key).  The number of workers does not change
 \* the result: offsets only grow under the per-key lock.
 LatestOff(l, h, k) ==
